@@ -182,7 +182,7 @@ def run(ctx):
         tab = list(I_.bound("formulas.formula_grammar", a, k).values())[0]
         built.append(tab)
         from ptstat.symval import Builtin
-        return I_.new_obj("grammar", None, {"parseString": Builtin("parseString", lambda s_, *x, **y: [(tab, s_)])}, open_attrs=set())
+        return I_.new_obj("grammar", None, {nm_: Builtin(nm_, lambda s_, *x, **y: [(tab, s_)]) for nm_ in ("parseString", "parse_string")}, open_attrs=set())
     I2.stubs["formulas.formula_grammar"] = fake_grammar
     pf = I2.global_name("formulas", "parse_formula")
     T2 = I2.instantiate(I2.get_class("core.PeriodicTable"), ["second"], {}, name="T2", open_attrs=())
